@@ -206,6 +206,31 @@ theorem is_weighted_moment (q : X → ℝ) (hq : ∀ x, 0 < q x) (hq1 : ∑ x, q
   have := (hq x).ne'
   field_simp
 
+/-- **NEGATIVE (sensitivity of `is_unbiased` to the model):** the same estimate without the `− log N` term,
+    `exp(logsumexp(log_w))`, has expectation `N · Z`, hence is biased for every `N ≥ 2` -/
+theorem dropping_logN_expectation (q : X → ℝ) (hq : ∀ x, 0 < q x) (hq1 : ∑ x, q x = 1)
+    (logL logPi : X → ℝ) (N : ℕ) (hN : 1 ≤ N) :
+    Ex q N (fun xs => Real.exp (logsumexp
+        (logW (xs.map logL) (xs.map logPi) (xs.map fun x => Real.log (q x)))))
+      = (N : ℝ) * ∑ x, Real.exp (logL x) * Real.exp (logPi x) := by
+  rw [Ex_congr q N _ (fun xs => (xs.map (isW logL logPi fun x => Real.log (q x))).sum)]
+  · rw [Ex_sum q hq1]
+    congr 1
+    apply Finset.sum_congr rfl
+    intro x _
+    rw [isW, Real.exp_log (hq x)]
+    have := (hq x).ne'
+    field_simp
+  · intro xs hxs
+    have hne : xs ≠ [] := by
+      intro e; subst e; simp at hxs; omega
+    have hne' : (xs.map fun x => logL x + logPi x - Real.log (q x)) ≠ [] := by simpa using hne
+    rw [logW_map, logsumexp_eq _ hne', Real.exp_log (sum_exp_pos _ hne'), List.map_map]
+    congr 1
+    apply List.map_congr_left
+    intro x _
+    exact exp_logw logL logPi (fun x => Real.log (q x)) x
+
 end IS
 
 /-! ## a prior that vanishes on part of the space -/
@@ -675,16 +700,14 @@ omit [Fintype X] in
 theorem resP_eq (logL logPi logQ : X → ℝ) (b b' : ℝ) (xs : List X) (a : Fin xs.length) :
     resP logL logPi logQ b b' xs a
       = incr logL logPi logQ b b' (xs.get a) / (xs.map (incr logL logPi logQ b b')).sum := by
-  have ha : a.val < ((xs.map (incr logL logPi logQ b b')).map
-      (· / (xs.map (incr logL logPi logQ b b')).sum)).length := by simp
-  rw [resP, C09.resampleP_eq_list, incW_map, List.getD_eq_getElem _ _ ha]
-  simp
+  rw [resP, C09.resampleP_eq_list, incW_map]
+  simp [List.getD_eq_getElem?_getD]
 
 omit [Fintype X] in
 theorem resP_sum_one (logL logPi logQ : X → ℝ) (b b' : ℝ) (xs : List X) (h : xs ≠ []) :
     ∑ a, resP logL logPi logQ b b' xs a = 1 := by
   simp only [resP_eq]
-  rw [← Finset.sum_div, List.get_eq_getElem]
+  rw [← Finset.sum_div]
   have := Fin.sum_univ_fun_getElem xs (incr logL logPi logQ b b')
   simp only [List.get_eq_getElem]
   rw [this]
@@ -767,7 +790,10 @@ theorem hfun_mass (logL logPi logQ : X → ℝ) (K : ℝ → X → X → ℝ)
     Initial population: `N ≥ 1` i.i.d. draws from the proposal `q`; fixed schedule `0 = β_0, β_1, …, β_T = 1`;
     per-step estimate = the model's `smcStepEstimate` (`exp(log_evidence_ratio)`); ancestors drawn with the
     model's `resampleP`; mutation by any Markov kernels `K β` (rows sum to one) leaving `p_β` invariant.
-    Then `E[Π_t estimate_t] = Σ_x L π = Z`. -/
+    Then `E[Π_t estimate_t] = Σ_x L π = Z`.
+    Not covered (and not exact in general): a schedule chosen adaptively from the population
+    (`determine_beta` with a target efficiency) and mutation kernels that use the whole ensemble; for those
+    only the per-step identity `smc_step_ratio` and consistency (`N → ∞`) remain. -/
 theorem smc_unbiased (q : X → ℝ) (hq : ∀ x, 0 < q x) (hq1 : ∑ x, q x = 1) (logL logPi : X → ℝ)
     (K : ℝ → X → X → ℝ) (hK1 : ∀ b x, ∑ y, K b x y = 1)
     (hKinv : ∀ b y, ∑ x, temp logL logPi (fun x => Real.log (q x)) b x * K b x y
@@ -789,7 +815,7 @@ theorem smc_unbiased (q : X → ℝ) (hq : ∀ x, 0 < q x) (hq1 : ∑ x, q x = 1
 
 /-- non-vacuity of the kernel hypotheses: "no mutation" (`K = id`) is stochastic and invariant … -/
 theorem idKernel_ok [DecidableEq X] (logL logPi logQ : X → ℝ) :
-    (∀ (b : ℝ) (x : X), ∑ y, (if x = y then (1 : ℝ) else 0) = 1)
+    (∀ (_ : ℝ) (x : X), ∑ y, (if x = y then (1 : ℝ) else 0) = 1)
     ∧ ∀ (b : ℝ) (y : X), ∑ x, temp logL logPi logQ b x * (if x = y then (1 : ℝ) else 0)
         = temp logL logPi logQ b y := by
   constructor
@@ -798,7 +824,7 @@ theorem idKernel_ok [DecidableEq X] (logL logPi logQ : X → ℝ) :
 
 /-- … and so is the perfectly mixing kernel `K β (x, ·) = p_β` -/
 theorem mixingKernel_ok [Nonempty X] (logL logPi logQ : X → ℝ) :
-    (∀ (b : ℝ) (x : X), ∑ y, pt logL logPi logQ b y = 1)
+    (∀ (b : ℝ) (_ : X), ∑ y, pt logL logPi logQ b y = 1)
     ∧ ∀ (b : ℝ) (y : X), ∑ x, temp logL logPi logQ b x * pt logL logPi logQ b y
         = temp logL logPi logQ b y := by
   constructor
@@ -824,8 +850,16 @@ theorem q3_pos : ∀ x, 0 < q3 x := by
 theorem q3_sum : ∑ x, q3 x = 1 := by
   simp [q3, Fin.sum_univ_three]; norm_num
 
+theorem L3_pos : ∀ x, 0 < L3 x := by
+  intro x; fin_cases x <;> simp [L3]
+theorem π3_pos : ∀ x, 0 < π3 x := by
+  intro x; fin_cases x <;> simp [π3]
+
 theorem Z3 : ∑ x, Real.exp (Real.log (L3 x)) * Real.exp (Real.log (π3 x)) = 2 := by
-  simp [Fin.sum_univ_three, L3, π3, Real.exp_log]
+  have h1 : ∀ x, Real.exp (Real.log (L3 x)) = L3 x := fun x => Real.exp_log (L3_pos x)
+  have h2 : ∀ x, Real.exp (Real.log (π3 x)) = π3 x := fun x => Real.exp_log (π3_pos x)
+  simp only [h1, h2]
+  simp [Fin.sum_univ_three, L3, π3]
   norm_num
 
 /-- importance sampling, any `N ≥ 1`: the expected evidence estimate of the model is `2` -/
@@ -838,8 +872,9 @@ example (N : ℕ) (hN : 1 ≤ N) :
 example (N : ℕ) (hN : 1 ≤ N) :
     Ex q3 N (smcValue (fun x => Real.log (L3 x)) (fun x => Real.log (π3 x))
       (fun x => Real.log (q3 x)) (fun _ x y => if x = y then 1 else 0) 0 [1/2, 1]) = 2 := by
-  rw [smc_unbiased q3 q3_pos q3_sum _ _ _ (idKernel_ok _ _ _).1 (idKernel_ok _ _ _).2 N hN _ (by simp),
-    Z3]
+  have hK := idKernel_ok (fun x => Real.log (L3 x)) (fun x => Real.log (π3 x))
+    (fun x => Real.log (q3 x))
+  rw [smc_unbiased q3 q3_pos q3_sum _ _ _ hK.1 hK.2 N hN _ (by simp), Z3]
 
 /-- telescoping on the schedule `0 → 1/4 → 1/2 → 1` -/
 example :
